@@ -47,10 +47,15 @@ pub fn run(ctx: &mut Ctx) {
             ctx.oracle_runs += 3;
             let panicked = out.len() == 1 && out[0] == vec![2] || (out.len() == 3 && { let mut p = false; let e = &out[2]; let mut pos = 0; while pos < e.len() { match e[pos] { 0 => pos += 77, 1 => pos += 41, _ => { p = true; break; } } } p });
             // a panic in into_proof is the documented one only if the server's own B is 0 mod N; report everything else
-            if panicked {
+            // the property quantifies over accounts whose stored verifier is NOT a multiple of N;
+            // verifiers 0 and N are exercised (the repaired code returns for them too) but a panic
+            // there is outside the property and only counted
+            let outside = *v == [0u8; 32] || *v == NLE;
+            if panicked && outside { ctx.count("outside-property: panic with a stored verifier that is a multiple of N"); }
+            if panicked && !outside {
                 ctx.fail("server_panic", format!("{{\"stored_verifier\":\"{}\",\"verifier_class\":\"{}\",\"A\":\"{}\",\"A_class\":\"{}\",\"b\":\"{}\",\"salt\":\"{}\",\"debug_build\":{}}}", hex(v), vlabel, hex(a_pub), alabel, hex(&b), hex(&salt), debug));
             }
-            if !debug && model_cases < model_budget && rng.chance(1, 3) {
+            if !debug && !outside && model_cases < model_budget && rng.chance(1, 3) {
                 model_cases += 1;
                 let un = ns("Victim"); let msc: Vec<u8> = ms.iter().flat_map(|m| m.iter().copied()).collect();
                 let o: Vec<&[u8]> = out.iter().map(|x| x.as_slice()).collect();
